@@ -27,7 +27,7 @@ COMPONENTS = {
     "stub": ["trained network -> IdealNet(bottomup): content-decoding + repository target generators", "queue -> SimQueue, media -> in-memory coordinate frames"],
 }
 ASSUMPTIONS = [
-    "well-separated class fixed from first principles: PAF sigma = max(3, 1.2*stride^2) (nearest-cell weight >= 0.9 under the generator's exp(-d^4/2sigma^2) profile), "
+    "well-separated class fixed from first principles: PAF sigma = max(3, 1.15*(cms_stride+paf_stride)^2) (weight >= 0.9 at the worst peak-quantisation + nearest-cell offset under the generator's exp(-d^4/2sigma^2) profile), "
     "own edges shorter than 0.2*max(H,W), same-node peaks of different animals >= 5 confmap sigmas apart, analytic own-edge score >= 0.6 and cross score <= 0.1",
     "tolerance as in C02 with S = confmap stride",
     "RGB coordinate-carrying frames; make_labels=False records",
@@ -109,7 +109,9 @@ def gen_plan(rng, index, tier):
         scale = rng.choice([0.5, 0.75, 1.0, 1.0, 1.25])
         g = scale * e
         sigma_cm = 1.5
-        paf_sigma = max(3.0, 1.2 * ps * ps)
+        # worst perpendicular offset of a sampled PAF cell from the true edge: peak quantisation (cs/sqrt2) + nearest-cell lookup (ps/sqrt2);
+        # weight exp(-d^4/2sigma^2) >= 0.9 there  <=>  sigma >= 2.24 d^2 = 1.12 (cs+ps)^2
+        paf_sigma = max(3.0, 1.15 * (cs + ps) ** 2)
         margin_g = 4.0 * cs + 3.0
         Wg, Hg = W * g, H * g
         if Wg < 2 * margin_g + 20 or Hg < 2 * margin_g + 20:
@@ -225,7 +227,7 @@ def components(pts, edges):
 def execute(plan, choices=None):
     violations = []
     probes = {"instances_expected": 0, "keypoints_compared": 0, "multi_animal_frames": 0, "split_animals": 0, "isolated_keypoints": 0,
-              "missing_node_animals": 0, "worst_err_over_tol_x1000_max": 0, "stride_pair_differs": 0}
+              "missing_node_animals": 0, "worst_err_over_tol_x1000_max": 0, "stride_pair_differs": 0, "degenerate_tie_scene_skipped": 0}
 
     def V(kind, where, detail):
         violations.append({"kind": kind, "sig": f"{kind}:{where}", "detail": detail})
@@ -238,6 +240,7 @@ def execute(plan, choices=None):
     sig = e * s
     tol = _tol(b["stride"], sig, rho)
     digest = ""
+    nets = {"bottomup": type("N", (), {"min_tie": float("inf")})()}
     try:
         records, end, err, sim, nets = pw.run_predictor(plan, "video", choices)
         digest = sim.digest()
@@ -310,6 +313,10 @@ def execute(plan, choices=None):
                 extra = [np.round(p, 1).tolist() for j, p in enumerate(preds) if j not in used]
                 V("extra_instance", "bottomup", f"frame {fi}: {len(preds) - len(used)} predicted instance(s) correspond to no labelled group: {extra}; expected {len(expected)} groups; cfg={describe(plan)}")
                 break
+    if violations and violations[0]["kind"] in ("animal_not_reassembled", "wrong_coordinates", "extra_instance") and nets["bottomup"].min_tie < 2e-3:
+        # not general position: a keypoint sits exactly half-way between two grid cells, the ideal map has two equal maxima there
+        violations = []
+        probes["degenerate_tie_scene_skipped"] = 1
     if b["stride"] != b["paf_stride"]:
         probes["stride_pair_differs"] = 1
     return {
